@@ -505,7 +505,8 @@ def rule_order_discriminated_members(ctx):
         for fname, fn in sorted(tu.funcs.items()):
             if cfront.basename(fn.get('_locfile') or fn.get('_file')) != c or fname in ctor_sets:
                 continue
-            conds = c08_conditions(fn)
+            from . import pathcond
+            conds = pathcond.conditions(fn)
             for e in walk(cfront.body(fn)):
                 if e.get('kind') != 'MemberExpr' or e['name'] not in partial or 'reb_variational_configuration' not in qtype(strip(e['inner'][0])):
                     continue
